@@ -28,6 +28,10 @@ type C07Fault struct {
 	Data   []byte `json:"data,omitempty"`
 	// ErrKind (kind error): flavour of the error value the handler returns (see ErrKinds)
 	ErrKind string `json:"err_kind,omitempty"`
+	// CloseAfter (kind error): the plugin's connection dies as soon as everything it has written after
+	// the handler returned has been delivered to the runtime's end: the veto holds if (and only if) the
+	// runtime's client got the error reply before it noticed the loss
+	CloseAfter bool `json:"close_after,omitempty"`
 }
 
 type C07Req struct {
@@ -103,6 +107,10 @@ func c07Gen(rng *rand.Rand, conf string, idx int) any {
 			}
 			if f.Kind == "error" {
 				f.ErrKind = pick(rng, ErrKinds)
+				if rng.Intn(3) == 0 {
+					f.ErrKind = pick(rng, []string{"", "status:8", "status:14", "wrapped-deadline"}) // flavours whose text names the request
+					f.CloseAfter = true
+				}
 			}
 			if strings.HasPrefix(f.Kind, "cut") && f.When == "during" {
 				f.Off = rng.Intn(200)
@@ -347,6 +355,26 @@ func c07Exec(t *testing.T, w *C07W, sc SchedCfg, base *c07Transcript, rec *c07Tr
 							applyFault(i, f)
 						}})
 				}
+				if f != nil && f.Kind == "error" && f.CloseAfter {
+					i, f := i, f
+					vp := plugs[f.Victim]
+					var ven *Entry
+					e.S.Add(&simItem{Key: fmt.Sprintf("fault:close-after-reply:%s:%s", w.Plugins[f.Victim].Name, id), Owner: "fault",
+						Ready: func() bool {
+							if _, done := fired[i]; done || cur != i || !inflight {
+								return false
+							}
+							if ven == nil {
+								ven = h.findEntry(vp.Name, id)
+							}
+							return ven != nil && h.entryExited(ven) && vp.Conn.DeliveredBytes() == vp.Conn.WrittenBytes()
+						},
+						Fire: func(int) {
+							fired[i] = i
+							vp.Conn.Kill(false)
+							e.S.Probe("C07.fault.error-then-connection-lost")
+						}})
+				}
 				t0 := time.Now()
 				o.Resp, o.Err = h.Call(rq.Event, pod, ctr, nil)
 				o.Elapsed = time.Since(t0)
@@ -567,6 +595,16 @@ func c07Oracle(res *Result, w *C07W, h *H1, plugs []*Plug, outs []*c07Out, fired
 				} else {
 					anyOutcome = true
 				}
+				if _, lost := fired[i]; f.CloseAfter && lost && veto == v {
+					// the connection was lost right after the reply: the veto stands if the runtime's client
+					// received the error reply; if the reply was lost with the connection the plugin just failed
+					if h.SawClientStatus("veto-" + w.Plugins[v].Name + "-" + id) {
+						res.Probe("C07.veto-received-then-connection-lost")
+					} else {
+						veto, anyOutcome = -1, true
+						status[v] = stMaybe
+					}
+				}
 				nontrivial = true
 			case f.Kind == "partial-r2p":
 				status[v] = stMaybe
@@ -741,6 +779,11 @@ func c07Oracle(res *Result, w *C07W, h *H1, plugs []*Plug, outs []*c07Out, fired
 				dead[f.Victim] = invoked[w.Plugins[f.Victim].Name] > 0 || dead[f.Victim]
 				diedAt[f.Victim] = i
 			case f.Kind == "error":
+				if f.CloseAfter && didFire {
+					dead[f.Victim] = true
+					diedAt[f.Victim] = i
+					diedOf[f.Victim] = "kill"
+				}
 			case f.Kind == "garbage":
 				if didFire {
 					unsure[f.Victim] = true
